@@ -143,10 +143,10 @@ def bounded(ctx):
                 s, l = _soup_case(ctx, lim, "valid-line", name, spec, fmt, tokens, "valid")
                 for kind, variant, mtoks, want in G.mutations(spec, A, items, ch):
                     counts[kind] = counts.get(kind, 0) + 1
-                    for sig, what in mutation_problems(spec, fmt, mtoks, want):
+                    for sig, what in mutation_problems(spec, A, fmt, mtoks, want):
                         lim.fail("mutation|%s|%s|%s" % (kind, variant, sig),
                                  "%s  [valid line %r, mutated %r]" % (what, tokens, mtoks),
-                                 {"kind": "mutation", "fmt": spec, "tokens": mtoks, "want": want, "valid": tokens})
+                                 {"kind": "mutation", "fmt": spec, "assign": A, "tokens": mtoks, "want": want, "valid": tokens})
                     ctx.case([name, mtoks, kind], nontrivial=True)
         if ctx.out_of_time():
             stopped = True
@@ -155,7 +155,7 @@ def bounded(ctx):
              + "mutations applied: " + ", ".join("%s x%d" % kv for kv in sorted(counts.items())) + "; " + lim.note())
 
 
-def mutation_problems(spec, fmt, tokens, want):
+def mutation_problems(spec, A, fmt, tokens, want):
     res = []
     s = G.parse_outcome(G.new_parser(), fmt, tokens, False)
     l = G.parse_outcome(G.new_parser(), fmt, tokens, True)
@@ -168,15 +168,11 @@ def mutation_problems(spec, fmt, tokens, want):
             res.append(("lenient-raises-parse-error", "lenient parse raised %s: %s" % (l[1], l[2])))
         elif l[1] != "ValueError":
             res.append(("lenient-escape-%s" % l[3], "lenient parse raised %s: %s" % (l[1], l[2])))
-        elif want != "ValueError" and not G_value_error_expected(spec):
+        elif want != "ValueError" and not G.undecided_bare(spec, A):
+            # (a lenient parse goes on after the fault with what it has; only a bare optional-value option whose default
+            # None has no conversion -- args_gen.bare_is_undecided -- may then give the documented ValueError)
             res.append(("lenient-raises-ValueError", "lenient parse of a line with only a %s fault raised ValueError: %s" % (want, l[2])))
     return res
-
-
-def G_value_error_expected(spec):
-    """a lenient parse goes on after the fault with what it has; with a bare optional-value option whose default None has
-    no conversion (see args_gen.bare_is_undecided) a ValueError is the documented outcome"""
-    return any(G.bare_is_undecided(o) for o in spec["opts"])
 
 
 def replay_bounded(check_id, failure):
@@ -184,7 +180,7 @@ def replay_bounded(check_id, failure):
     fmt = G.build_format(w["fmt"])
     sig = failure["signature"]
     if w["kind"] == "mutation":
-        pr = mutation_problems(w["fmt"], fmt, w["tokens"], w["want"])
+        pr = mutation_problems(w["fmt"], w["assign"], fmt, w["tokens"], w["want"])
         want = sig.rsplit("|", 1)[1]
     else:
         s = G.parse_outcome(G.new_parser(), fmt, w["tokens"], False)
